@@ -118,14 +118,8 @@ fn header_size(tag: u8) -> Option<usize> {
 
 /// C13.P1a: one `next()` on arbitrary bytes with arbitrary truncation: no panic; unknown tag = Corruption;
 /// every action consumes exactly its header; decoded fields are the little-endian bytes.
-crate::verif_env! {
-#[kani::proof]
-#[kani::unwind(12)]
-#[kani::stub(<std::fs::File as std::io::Read>::read, stub_file_read)]
-#[kani::stub(crc32fast::Hasher::internal_new_specialized, crate::verif_common::no_specialized_crc)]
-fn c13_p1a_parser_one_action() {
+fn parser_one_action(validate: bool) {
 	unsafe { BUF = kani::any(); LEN = kani::any(); kani::assume(LEN <= 16); POS = 0; }
-	let validate: bool = kani::any();
 	let lock = reading_at(3);
 	let mut r = LogReader::new(lock.write(), validate);
 	let res = r.next();
@@ -184,13 +178,27 @@ fn c13_p1a_parser_one_action() {
 		},
 		Err(_) => assert!(false, "C13.P1 no other error kind"),
 	}
-	kani::cover!(matches!(res, Ok(LogAction::EndRecord)) && validate);
+	kani::cover!(matches!(res, Ok(LogAction::EndRecord)));
 	kani::cover!(matches!(res, Ok(LogAction::InsertValue(_))));
-	kani::cover!(matches!(res, Err(Error::Corruption(_))) && tag == 4);
+	if validate { kani::cover!(matches!(res, Err(Error::Corruption(_))) && tag == 4); }
 	std::mem::forget(res);
 	std::mem::forget(r);
 	std::mem::forget(lock);
 }
+
+crate::verif_env! {
+#[kani::proof]
+#[kani::unwind(12)]
+#[kani::stub(<std::fs::File as std::io::Read>::read, stub_file_read)]
+#[kani::stub(crc32fast::Hasher::internal_new_specialized, crate::verif_common::no_specialized_crc)]
+fn c13_p1a_parser_one_action() { parser_one_action(false) }
+}
+crate::verif_env! {
+#[kani::proof]
+#[kani::unwind(12)]
+#[kani::stub(<std::fs::File as std::io::Read>::read, stub_file_read)]
+#[kani::stub(crc32fast::Hasher::internal_new_specialized, crate::verif_common::no_specialized_crc)]
+fn c13_p1a_parser_one_action_validating() { parser_one_action(true) }
 }
 
 /// C13.P1b CRC gate over a whole (small) record: BeginRecord, one InsertValue header followed by `n` payload
@@ -300,7 +308,11 @@ pub fn fev(kind: u8, fd: i32) { unsafe { if FEV_N < FE_MAX { FEV[FEV_N] = (kind,
 pub fn fev_reset() { unsafe { FEV_N = 0; FAIL_SYNC_DATA = false; FAIL_SYNC_ALL = false; FAIL_SET_LEN = false; } }
 fn fd_of(f: &std::fs::File) -> i32 { use std::os::fd::AsRawFd; f.as_raw_fd() }
 
+/// The Log under test (set by C12 harnesses) so that the sync model can observe what was already handed over.
+pub static mut LOG_PTR: *const Log = std::ptr::null();
+pub static mut QUEUED_AT_SYNC: usize = 99;
 pub fn stub_sync_data(f: &std::fs::File) -> std::io::Result<()> {
+	unsafe { if !LOG_PTR.is_null() { QUEUED_AT_SYNC = (*LOG_PTR).read_queue.read().len(); } }
 	if unsafe { FAIL_SYNC_DATA } { fev(2, fd_of(f)); return Err(std::io::Error::from(std::io::ErrorKind::Other)) }
 	fev(1, fd_of(f));
 	Ok(())
@@ -320,6 +332,25 @@ pub fn stub_file_seek(f: &mut std::fs::File, _pos: std::io::SeekFrom) -> std::io
 	fev(6, fd_of(f));
 	Ok(0)
 }
+
+/// Environment nondeterminism for C12.O3b: while a table flush is in progress another worker may finish enacting a
+/// log file and append it to the cleanup queue. Enabled by harnesses through RACE_ON (fd 30 marks the late file).
+pub static mut RACE_ON: bool = false;
+pub static mut RACE_DONE: bool = false;
+pub fn race_hook() {
+	unsafe {
+		if RACE_ON && !RACE_DONE && !LOG_PTR.is_null() {
+			RACE_DONE = true;
+			(*LOG_PTR).cleanup_queue.write().push_back((3, vc::raw_file(30)));
+		}
+	}
+}
+pub fn set_log_ptr(log: &Log) { unsafe { LOG_PTR = log as *const Log; } }
+pub fn clear_log_ptr() { unsafe { LOG_PTR = std::ptr::null(); } }
+pub fn log_push_cleanup(log: &Log, id: u32, fd: i32) { log.cleanup_queue.write().push_back((id, vc::raw_file(fd))); }
+pub fn log_cleanup_len(log: &Log) -> usize { log.cleanup_queue.read().len() }
+pub fn log_cleanup_has(log: &Log, id: u32) -> bool { log.cleanup_queue.read().iter().any(|(i, _)| *i == id) }
+pub fn log_pool_len(log: &Log) -> usize { log.log_pool.read().len() }
 
 pub fn mk_log(sync: bool, appending: Option<Appending>) -> Log {
 	Log {
@@ -351,10 +382,13 @@ fn c12_o1_flush_one_syncs_before_handover() {
 	let min: u64 = kani::any();
 	unsafe { FAIL_SYNC_DATA = kani::any(); }
 	let log = mk_log(sync, Some(Appending { id: 7, file: std::io::BufWriter::with_capacity(0, vc::raw_file(5)), size }));
+	unsafe { LOG_PTR = &log as *const Log; QUEUED_AT_SYNC = 99; }
 	let r = log.flush_one(min);
+	unsafe { LOG_PTR = std::ptr::null(); }
 	let queued = log.read_queue.read().len();
 	let n = unsafe { FEV_N };
 	let synced_ok = n >= 1 && unsafe { FEV[0] } == (1, 5);
+	if n >= 1 { assert!(unsafe { QUEUED_AT_SYNC } == 0, "C12.O1 the file is not visible to the reader while it is being synced"); }
 	match &r {
 		Ok(true) => {
 			assert!(size > min, "C12.O1 flushed only above the threshold");
@@ -561,3 +595,106 @@ fn c13_p2_value_validate_enact_e4096() { validate_enact_case(4096) }
 
 /// Log without private types in the signature (for harnesses of other modules).
 pub fn mk_log_plain(sync: bool) -> Log { mk_log(sync, None) }
+
+
+/// C13.R1: after a rejected record, clear_replay_logs leaves nothing to replay: the active reader's file and every
+/// queued replay file move to the cleanup queue (they are truncated before reuse, so a later open cannot pick them up),
+/// and the log overlays are emptied.
+fn clear_replay_case(nq: usize, has_reader: bool) {
+	let log = mk_log(true, None);
+	if has_reader { *log.reading.write() = Some(Reading { id: 3, file: std::io::BufReader::with_capacity(0, vc::raw_file(13)) }); }
+	if nq >= 1 { log.replay_queue.write().push_back((4, 10, vc::raw_file(14))); }
+	if nq >= 2 { log.replay_queue.write().push_back((5, 11, vc::raw_file(15))); }
+	log.clear_replay_logs();
+	assert!(log.replay_queue.read().len() == 0, "C13.R1 nothing after the first invalid record stays queued for replay");
+	assert!(log.reading.read().is_none(), "C13.R1 active reader dropped");
+	let cq = log.cleanup_queue.read();
+	assert!(cq.len() == nq + if has_reader { 1 } else { 0 }, "C13.R1 every discarded log file is queued for truncation");
+	if nq == 2 { assert!(cq[cq.len() - 1].0 == 5 && cq[cq.len() - 2].0 == 4, "C13.R1 discarded files keep their ids"); }
+	assert!(!log.dirty.load(Ordering::Relaxed), "C13.R1 log marked clean");
+	std::mem::forget(cq);
+	std::mem::forget(log);
+}
+crate::verif_env! {
+#[kani::proof]
+#[kani::unwind(8)]
+#[kani::stub(<std::os::fd::OwnedFd as std::ops::Drop>::drop, crate::verif_common::fd_drop_noop)]
+fn c13_r1_clear_replay_logs_discards_everything() {
+	let which: u8 = kani::any();
+	kani::assume(which < 4);
+	if which == 0 { clear_replay_case(2, true); }
+	if which == 1 { clear_replay_case(2, false); }
+	if which == 2 { clear_replay_case(1, true); }
+	if which == 3 { clear_replay_case(0, false); }
+}
+}
+
+
+
+// ---- helpers for harnesses of other modules (no private types in signatures) ----
+/// Symbolic log content of at most `max` bytes (symbolic logical length); returns the length.
+pub fn log_set_any(max: usize) -> usize {
+	unsafe { BUF = kani::any(); LEN = kani::any(); kani::assume(LEN <= max); POS = 0; LEN }
+}
+pub fn log_bytes() -> [u8; LOG_BYTES] { unsafe { BUF } }
+pub fn log_attach_reader(log: &Log, fd: i32) { *log.reading.write() = Some(Reading { id: 0, file: std::io::BufReader::with_capacity(0, vc::raw_file(fd)) }); }
+pub fn log_queue_replay(log: &Log, id: u32, record: u64) { log.replay_queue.write().push_back((id, record, vc::raw_file(20))); }
+pub fn log_replay_len(log: &Log) -> usize { log.replay_queue.read().len() }
+/// Seek model for LogReader::reset (SeekFrom::Current(-read_bytes)) over the static buffer.
+pub fn stub_file_seek_back(_f: &mut std::fs::File, pos: std::io::SeekFrom) -> std::io::Result<u64> {
+	unsafe {
+		match pos {
+			std::io::SeekFrom::Current(d) => { let np = POS as i64 + d; assert!(np >= 0, "seek before the start of the log"); POS = np as usize; },
+			std::io::SeekFrom::Start(p) => { POS = p as usize; },
+			std::io::SeekFrom::End(_) => panic!("unexpected seek from end"),
+		}
+		Ok(POS as u64)
+	}
+}
+
+// =====================================================================================
+// C13.P2i: index / ref-count page actions: validation bounds the page number by the table size and consumes
+// exactly mask + 8 bytes (16 for ref counts) per set mask bit, like skip_plan does
+// =====================================================================================
+fn index_validate_case(bits: u8) {
+	let head: [u8; 16] = kani::any();
+	let avail: usize = kani::any();
+	kani::assume(avail <= 0x400);
+	let t = crate::index::verif_kani::table(bits);
+	let index: u64 = kani::any();
+	let lock = reading_at(3);
+	rd_reset(head, avail);
+	let mut r = reader_for_tables(&lock, true);
+	let v = t.validate_plan(index, &mut r);
+	let consumed = unsafe { RD_POS };
+	let mask = u64::from_le_bytes([head[0], head[1], head[2], head[3], head[4], head[5], head[6], head[7]]);
+	if v.is_ok() {
+		assert!(index < (1u64 << bits), "C13.P2 a validated index page lies inside the table file");
+		assert!(consumed == 8 + 8 * mask.count_ones() as usize, "C13.P2 index action consumes the mask and one entry per set bit");
+		assert!(consumed <= avail, "C13.P2 never reads past the record");
+		// skip_plan (used by the apply pass for dropped tables) consumes the same bytes
+		rd_reset(head, avail);
+		let lock2 = reading_at(4);
+		let mut r2 = reader_for_tables(&lock2, false);
+		let s = crate::index::IndexTable::skip_plan(&mut r2);
+		assert!(s.is_ok() && unsafe { RD_POS } == consumed, "C13.P2 skip_plan consumes exactly what validate_plan consumed");
+		std::mem::forget(s); std::mem::forget(r2); std::mem::forget(lock2);
+	}
+	kani::cover!(v.is_ok() && mask.count_ones() == 3);
+	kani::cover!(v.is_err() && index >= (1u64 << bits));
+	std::mem::forget(v); std::mem::forget(r); std::mem::forget(lock); std::mem::forget(t);
+}
+
+macro_rules! c13_p2i {
+	($name:ident, $bits:expr) => {
+		crate::verif_env! {
+			#[kani::proof]
+			#[kani::unwind(66)]
+			#[kani::stub(crate::log::LogReader::read, stub_reader_read)]
+			#[kani::stub(crc32fast::Hasher::internal_new_specialized, crate::verif_common::no_specialized_crc)]
+			fn $name() { index_validate_case($bits) }
+		}
+	};
+}
+c13_p2i!(c13_p2i_index_validate_b16, 16);
+c13_p2i!(c13_p2i_index_validate_b20, 20);
